@@ -350,7 +350,10 @@ def group_level(rep, tier, timeout):
     s1.update({"thickness_cp": np.array([0.1, 0.2]), "twist_cp": np.zeros(2)})
     s2 = K.surface(2, 2, True, name="tail")
     s2.update({"thickness_cp": np.array([0.1]), "twist_cp": np.zeros(1)})
-    for surfs in ([s1], [s1, s2]):
+    sw = K.surface(2, 3, True, fem_model_type="wingbox")  # wingbox structure: same functionals, other structural groups
+    sw.pop("radius_cp", None)
+    sw.pop("thickness_cp", None)
+    for surfs in ([s1], [s1, s2], [sw]):
         names = [x["name"] for x in surfs]
         AS = groups.aerostruct_symbolic(surfs if len(surfs) > 1 else surfs[0], rep=rep)
         AS.encode(rep)
